@@ -444,12 +444,15 @@ def main():
             configs.append({"kind": "step", "algo": algo, "ne": 1, "incremental": True})
     for algo in ("newmark", "midpoint", "euler_implicit"):
         configs.append({"kind": "energy", "algo": algo})
-    switches = [("newmark", "hht"), ("hht", "midpoint"), ("midpoint", "newmark"), ("euler_implicit", "newmark")]
+    switches = [("newmark", "hht"), ("hht", "midpoint"), ("midpoint", "newmark"), ("euler_implicit", "newmark"),
+                # same algorithm, different step size / parameters (anything cached per algorithm shows up here)
+                ("newmark", "newmark"), ("hht", "hht"), ("midpoint", "midpoint"), ("parabolic", "parabolic"), ("euler_implicit", "euler_implicit"),
+                ("hht_newmark", "hht_newmark")]
     if tier == "thorough":
         for algo in ALGOS:
             configs.append({"kind": "step", "algo": algo, "ne": 2, "concrete_mats": True})
             configs.append({"kind": "step", "algo": algo, "ne": 3, "concrete_mats": True})
-        switches += [("newmark", "newmark"), ("hht_newmark", "euler_implicit"), ("newmark", "euler_explicit"), ("euler_explicit", "newmark"), ("hht", "hht_newmark")]
+        switches += [("hht_newmark", "euler_implicit"), ("newmark", "euler_explicit"), ("euler_explicit", "newmark"), ("hht", "hht_newmark")]
     for a, b in switches:
         configs.append({"kind": "switch", "first": a, "second": b})
     results = harness.run_jobs(job, configs)
